@@ -23,7 +23,8 @@ Inductive obs :=
 Inductive item :=
 | ICmd (c : option command) (o : obs)
 | IHttp (q : hreq) (status : N) (body : bytes)
-| IHttpOther (status : N).      (* a request gorilla/mux did not route to a rule handler: no effect expected *)
+| IHttpOther (status : N).      (* a request gorilla/mux did not route to a rule handler (404, 405, /api,
+                                   /healthcheck): no effect on the tables expected *)
 
 (* tables as the harness reads them from the App, sorted by key *)
 Definition snap := (list (bytes * drule) * list (bytes * option (list bytes)))%type.
@@ -62,7 +63,7 @@ Section Run.
     | IHttp q status body =>
         let '(s', (st', b')) := hstep s q in
         (s', (st' =? status) && (if st' =? 200 then beqb b' body else true))
-    | IHttpOther status => (s, negb (status =? 200))
+    | IHttpOther status => (s, true)   (* only the tables are compared: they must not have changed *)
     end.
 
   Fixpoint items_ok (s : st) (l : list (item * snap)) : bool :=
@@ -90,6 +91,21 @@ Definition case_ok (c : case) : bool :=
 (* non-trivial: the model run changes the rule tables at least twice *)
 Definition case_nontrivial (c : case) : bool :=
   let '(api, td, ts, items) := c in 2 <=? nchanges api (tab_dec td) (tab_dec ts) (start api) items.
+
+
+(* diagnostics: per item, (answer agrees, tables agree) *)
+Section Diag.
+  Variable api : bytes.
+  Variable dd : bytes -> drule + bytes.
+  Variable ds : bytes -> srule + bytes.
+  Fixpoint item_flags (s : st) (l : list (item * snap)) : list (bool * bool) :=
+    match l with
+    | [] => []
+    | (i, n) :: r => let '(s', ok) := item_step api dd ds s i in (ok, snap_ok s' n) :: item_flags s' r
+    end.
+End Diag.
+Definition case_flags (c : case) : list (bool * bool) :=
+  let '(api, td, ts, items) := c in item_flags api (tab_dec td) (tab_dec ts) (start api) items.
 
 Definition mismatches (cs : list case) : list N := mismatch_idx case_ok 0 cs.
 Definition nontrivial (cs : list case) : list N := idx_where case_nontrivial cs.
